@@ -2042,6 +2042,12 @@ impl Element {
         }
 
         let mut script_module_content = None;
+        // (`<template name>`, `<wxs>` and `<import>` children are moved out of the node list)
+        let hoisted_before = (
+            globals.imports.len(),
+            globals.sub_templates.len(),
+            globals.scripts.len(),
+        );
         let new_children = if external_tag_type == ExternalTagKind::Script {
             // parse script tag content
             let ElementKind::Include { path, .. } = &element else {
@@ -2097,6 +2103,12 @@ impl Element {
                 vec![]
             }
         };
+        let has_hoisted_children = hoisted_before
+            != (
+                globals.imports.len(),
+                globals.sub_templates.len(),
+                globals.scripts.len(),
+            );
 
         // parse end tag
         let (close_location, end_tag_location) = if let Some(close_location) = self_close_location {
@@ -2237,6 +2249,8 @@ impl Element {
                 .find(|x| !matches!(x, Node::Comment(..)))
             {
                 ps.add_warning(ParseErrorKind::ChildNodesNotAllowed, child.location());
+            } else if has_hoisted_children {
+                ps.add_warning(ParseErrorKind::ChildNodesNotAllowed, tag_name.location());
             }
         } else if let Some((loc, name)) = template_name {
             if globals
@@ -2288,6 +2302,8 @@ impl Element {
                         .find(|x| !matches!(x, Node::Comment(..)))
                     {
                         ps.add_warning(ParseErrorKind::ChildNodesNotAllowed, child.location());
+                    } else if has_hoisted_children {
+                        ps.add_warning(ParseErrorKind::ChildNodesNotAllowed, tag_name.location());
                     }
                 }
                 element
